@@ -50,7 +50,7 @@ pub const FAMILIES: &[&str] = &[
     // rejections introduced (or moved from a panic / a silent acceptance to a diagnostic) by fix batch 2
     "attr_dup", "struct_base_methods", "fn_template_default", "template_value_signature", "const_part_write",
     "out_arg_place", "default_arg_wrong", "enum_incomplete", "rayquery_flags", "pp_else_after_else", "pp_if_across_include",
-    "export_fix2", "export_msl_fix2", "layout_fix2", "member_fix2",
+    "export_fix2", "export_msl_fix2", "layout_fix2", "member_fix2", "redef_fn_global",
 ];
 
 const POOL: &[&str] = &[
@@ -1551,9 +1551,10 @@ pub fn diag_program(family: &str, rng: &mut Rng) -> Option<DiagProg> {
             }
         }
         "layout_fix2" => {
-            // 24ea36f (sizes beyond 32 bits), d99f90e (arrays of structured buffers), d25724e (empty structs on Metal)
+            // 24ea36f (sizes beyond 32 bits), d99f90e (arrays of structured buffers), d25724e (empty structs on Metal),
+            // bdddd35 (arrays of structured buffers behind a typedef of an array)
             let ns = names(rng, k);
-            let which = rng.below(3);
+            let which = rng.below(4);
             let mut ds: Vec<String> = Vec::new();
             for n in &ns {
                 match which {
@@ -1565,6 +1566,10 @@ pub fn diag_program(family: &str, rng: &mut Rng) -> Option<DiagProg> {
                     1 => {
                         s.push_str(&format!("struct S_{}\n{{\n    float a;\n    float2 b;\n}};\n", n));
                         ds.push(format!("StructuredBuffer<S_{}> g_{}[{}];\n", n, n, 2 + rng.below(3)));
+                    }
+                    2 => {
+                        s.push_str(&format!("struct S_{}\n{{\n    float a;\n    float2 b;\n}};\ntypedef {}StructuredBuffer<S_{}> A_{}[2];\n", n, rng.pick(&["", "const "]), n, n));
+                        ds.push(format!("A_{} g_{}[{}];\n", n, n, 2 + rng.below(3)));
                     }
                     _ => {
                         s.push_str(&format!("struct E_{}\n{{\n}};\nstruct S_{}\n{{\n    E_{} e;\n    float a;\n}};\n", n, n, n));
@@ -1578,6 +1583,29 @@ pub fn diag_program(family: &str, rng: &mut Rng) -> Option<DiagProg> {
             }
             s.push_str(COMPUTE_TAIL);
             return Some(DiagProg { files: vec![("main.rssl".to_string(), s)], layout: true });
+        }
+        "redef_fn_global" => {
+            // 6824b1b: a global variable that takes the name of a function (1-3 overloads) of its scope
+            let ns = names(rng, k);
+            let in_namespace = rng.chance(1, 3);
+            if in_namespace {
+                s.push_str("namespace Outer\n{\n");
+            }
+            for n in &ns {
+                let tys = ["int", "float", "uint"];
+                for o in 0..rng.range(1, 3) as usize {
+                    s.push_str(&format!("{} {}({} p)\n{{\n    return p;\n}}\n", tys[o], n, tys[o]));
+                }
+            }
+            let mut ds: Vec<String> = ns.iter().map(|n| format!("{} {};\n", rng.pick(&["static int", "static const float", "Texture2D<float4>", "groupshared uint"]), n)).collect();
+            shuffle(rng, &mut ds);
+            for d in &ds {
+                s.push_str(d);
+            }
+            if in_namespace {
+                s.push_str("}\n");
+            }
+            s.push_str(COMPUTE_TAIL);
         }
         "member_fix2" => {
             // 92047b7 (a member name that is only a leading ::), 4189835 (swizzle on a constant buffer of a vector)
